@@ -3,6 +3,7 @@ import TlsProofs.Conc
 import TlsProofs.ConcCache
 import TlsProofs.ConcInv
 import TlsProofs.ConcRsa
+import TlsProofs.ConcDb
 import TlsModel.Gen.Locks
 /-
   C18 — shared objects stay correct under every thread interleaving.
@@ -318,5 +319,132 @@ example : Rsa.ValidKey Rsa.toyKey ∧ Rsa.BlindOk Rsa.toyKey ⟨0, 0⟩ ∧
     (∀ o ∈ [((2, 3) : Rsa.Call), (4, 17)], Rsa.invMod o.1 Rsa.toyKey.pub.n * o.1 % Rsa.toyKey.pub.n = 1) ∧
     (Rsa.rawPrivateKeyOp Rsa.toyKey ⟨0, 0⟩ 2 3).1 = 3 ^ 5 % 35 :=
   ⟨Rsa.toyKey_valid, Or.inl rfl, by decide, by decide⟩
+
+/-! ## the verifier database (BaseDB / VerifierDB) -/
+
+/-- Sequentially, for an in-memory or on-disk database and every history of create / get / set /
+    del / contains / keys / check in which callers store and delete user names only, every result
+    of the implementation model equals the specification's, whose state is the user entries alone:
+    the internal records (`--Reserved--type` written by `create()` on disk) are invisible. -/
+theorem db_refines_spec (E : Db.Env) (hT : E.resv E.typeKey = true) (onDisk : Bool)
+    (ops : List Db.Op) (hw : ∀ op ∈ ops, Db.userWrite E op = true) :
+    (Db.runFrom E (Db.DB.new onDisk) ops).2 = (Db.specFrom E (Db.Spec.new onDisk) ops).2 :=
+  (Db.run_sim E hT ops _ _ (Db.sim_new E onDisk) hw).1
+
+/-- Reserved names are never entries, in any state of the object: a lookup raises KeyError (or
+    "DB not open"), a membership test is False, `check` raises KeyError, `keys()` lists none. -/
+theorem db_reserved_never_entry (E : Db.Env) (d : Db.DB) (k : Db.Name) (hk : E.resv k = true) :
+    ((d.step E (.get k)).2 = .keyError ∨ (d.step E (.get k)).2 = .assertionError) ∧
+    ((d.step E (.contains k)).2 = .bool false ∨ (d.step E (.contains k)).2 = .assertionError) ∧
+    (∀ p, (d.step E (.check k p)).2 = .keyError ∨ (d.step E (.check k p)).2 = .assertionError) ∧
+    (∀ l, (d.step E .keys).2 = .names l → ∀ u ∈ l, E.resv u = false) := by
+  refine ⟨?_, ?_, ?_, ?_⟩
+  · simp only [Db.DB.step, Db.DB.getitem]; cases d.db <;> simp [hk]
+  · simp only [Db.DB.step]; cases d.db <;> simp [hk]
+  · intro p; simp only [Db.DB.step, Db.DB.getitem]; cases d.db <;> simp [hk]
+  · intro l hl u hu
+    simp only [Db.DB.step] at hl
+    cases hd : d.db with
+    | none => rw [hd] at hl; simp at hl
+    | some m =>
+      rw [hd] at hl
+      simp only [Db.Out.names.injEq] at hl
+      subst hl
+      simpa using (List.mem_filter.mp hu).2
+
+/-- non-vacuity: an on-disk database after `create()` physically holds the type record (name 0,
+    reserved), yet it is neither returned, contained nor listed; user 5 is. -/
+example :
+    let E : Db.Env := { resv := fun n => n == 0, typeKey := 0, typeVal := 77, checkItem := fun v _ p => v == p }
+    (Db.runFrom E (Db.DB.new true) [.get 5, .create, .get 0, .contains 0, .set 5 9, .keys, .get 5, .check 5 9, .del 5, .del 5]).2
+      = [.assertionError, .done, .keyError, .bool false, .done, .names [5], .val 9, .bool true, .done, .keyError] ∧
+    (Db.runFrom E (Db.DB.new true) [.create]).1.db = some [(0, 77)] := by decide
+
+/-- Generic consequence of the lock discipline: calls on a lock-protected object whose
+    statement-level semantics `sem` has well-formed shapes and the sequential model `step` as
+    composition.  Every complete interleaving is explained by ONE serial history: it contains each
+    thread's calls in program order, each thread observed exactly the results recorded in it, and
+    results and final shared state are those of running `step` over it. -/
+theorem lock_gives_linearizability {σ ρ ω ο : Type} (res : ρ → List ο) (sem : ω → List (Act σ ρ))
+    (step : ω → σ → σ × ο) (T : Nat → List ω)
+    (hshape : ∀ t, ∀ o ∈ T t, shapeOK 0 (kinds (sem o)) = true)
+    (hseq : ∀ o x l, (runActs (sem o) (x, l)).1 = (step o x).1 ∧
+                     res (runActs (sem o) (x, l)).2 = res l ++ [(step o x).2])
+    (s0 : σ) (l0 : Nat → ρ) (hl0 : ∀ t, res (l0 t) = []) (c : Cfg σ ρ)
+    (hrun : Steps (initCfg (fun t => (T t).map sem) s0 l0) c) (hfin : Final c) :
+    ∃ hist : List (Ev ω ο),
+      (∀ t, (evOf t hist).map (·.call) = T t) ∧
+      (∀ t, res (c.th t).loc = (evOf t hist).map (·.out)) ∧
+      runSeq step s0 (hist.map (·.call)) = (c.sh, hist.map (·.out)) := by
+  have hwf : AllSharedAccessInsideLock (fun t => (T t).map sem) := by
+    intro t op hop
+    obtain ⟨o, ho, rfl⟩ := List.mem_map.mp hop
+    exact hshape t o ho
+  obtain ⟨order, hsh, hloc, hops⟩ := lock_gives_atomicity _ hwf s0 l0 c hrun hfin
+  have h0 : LinHist res sem step T s0 (initSCfg (fun t => (T t).map sem) s0 l0) [] :=
+    ⟨⟨T, fun t => rfl, fun t => by simp [evOf]⟩, fun t => by
+        show res (l0 t) = List.map (·.out) (evOf t [])
+        simpa [evOf] using hl0 t, rfl⟩
+  obtain ⟨hist, hh⟩ := linHist_run res sem step T s0 hseq order _ [] h0
+  obtain ⟨rem, hrem, hT⟩ := hh.rem
+  have hremnil : ∀ t, rem t = [] := by
+    intro t
+    have := hops t
+    rw [hrem t] at this
+    exact List.map_eq_nil_iff.mp this
+  refine ⟨hist, ?_, ?_, ?_⟩
+  · intro t
+    have := hT t
+    rw [hremnil t, List.append_nil] at this
+    exact this
+  · intro t
+    rw [← hloc t]; exact hh.outs t
+  · rw [← hsh]; exact hh.run
+
+/-- the generated shape of the method behind every database call (all but the setup method
+    `create`) satisfies the lock discipline -/
+theorem verifierdb_call_shapes (o : Db.Op) (h : o ≠ .create) : shapeOK 0 (Db.callShape o) = true := by
+  cases o with
+  | create => exact absurd rfl h
+  | get k => show shapeOK 0 (shapeOf Gen.Locks.verifierDB Gen.Locks.verifierDB_BaseDB_getitem) = true; decide
+  | set k v => show shapeOK 0 (shapeOf Gen.Locks.verifierDB Gen.Locks.verifierDB_VerifierDB_setitem) = true; decide
+  | del k => show shapeOK 0 (shapeOf Gen.Locks.verifierDB Gen.Locks.verifierDB_BaseDB_delitem) = true; decide
+  | contains k => show shapeOK 0 (shapeOf Gen.Locks.verifierDB Gen.Locks.verifierDB_BaseDB_contains) = true; decide
+  | keys => show shapeOK 0 (shapeOf Gen.Locks.verifierDB Gen.Locks.verifierDB_BaseDB_keys) = true; decide
+  | check k p => show shapeOK 0 (shapeOf Gen.Locks.verifierDB Gen.Locks.verifierDB_BaseDB_check) = true; decide
+
+/-- Threads calling get / set / del / contains / keys / check on one open verifier database
+    (`create`/`open` are setup and excluded; stores and deletes use user names).  `sem` is any
+    statement-level semantics whose action kinds are those generated from basedb.py /
+    verifierdb.py for the method of each call and whose sequential composition is the BaseDB
+    model.  Every complete interleaving is explained by one serial history whose results are the
+    specification's: a plain mapping of user entries in which reserved names never appear. -/
+theorem concurrent_db_correct {ρ : Type} (E : Db.Env) (hT : E.resv E.typeKey = true)
+    (res : ρ → List Db.Out) (sem : Db.Op → List (Act Db.DB ρ))
+    (hshape : ∀ o, kinds (sem o) = Db.callShape o)
+    (hseq : ∀ o x l, (runActs (sem o) (x, l)).1 = (Db.DB.step E x o).1 ∧
+                     res (runActs (sem o) (x, l)).2 = res l ++ [(Db.DB.step E x o).2])
+    (T : Nat → List Db.Op) (hcreate : ∀ t, ∀ o ∈ T t, o ≠ .create)
+    (hw : ∀ t, ∀ o ∈ T t, Db.userWrite E o = true)
+    (d0 : Db.DB) (s0 : Db.Spec) (hsim : Db.Sim E d0 s0)
+    (l0 : Nat → ρ) (hl0 : ∀ t, res (l0 t) = []) (c : Cfg Db.DB ρ)
+    (hrun : Steps (initCfg (fun t => (T t).map sem) d0 l0) c) (hfin : Final c) :
+    ∃ hist : List (Ev Db.Op Db.Out),
+      (∀ t, (evOf t hist).map (·.call) = T t) ∧
+      (∀ t, res (c.th t).loc = (evOf t hist).map (·.out)) ∧
+      hist.map (·.out) = (Db.specFrom E s0 (hist.map (·.call))).2 := by
+  obtain ⟨hist, h1, h2, h3⟩ := lock_gives_linearizability res sem (fun o x => Db.DB.step E x o) T
+    (fun t o ho => by rw [hshape o]; exact verifierdb_call_shapes o (hcreate t o ho)) hseq d0 l0 hl0 c hrun hfin
+  refine ⟨hist, h1, h2, ?_⟩
+  have hmem : ∀ op ∈ hist.map (·.call), Db.userWrite E op = true := by
+    intro op hop
+    obtain ⟨e, he, rfl⟩ := List.mem_map.mp hop
+    have : e ∈ evOf e.thread hist := by simp [evOf, he]
+    have : e.call ∈ T e.thread := by
+      rw [← h1 e.thread]; exact List.mem_map.mpr ⟨e, this, rfl⟩
+    exact hw _ _ this
+  have href := (Db.run_sim E hT (hist.map (·.call)) d0 s0 hsim hmem).1
+  rw [Db.runFrom_eq_runSeq, h3] at href
+  exact href
 
 end Tls.C18
